@@ -31,6 +31,8 @@ def check(v, hists):
     for h in hists:
         honoured = {}
         for o in chainlog.walk(h):
+            if o.where == "packet":
+                continue
             acts = (o.tx or {}).get("actions", [])
             kinds = [a["kind"] for a in acts]
             touches = any(k.startswith("bridge") or k == "ics20_withdrawal" for k in kinds)
